@@ -378,7 +378,9 @@ func (resp *Response) Read(b *bufio.Reader) error {
 
 		case "ERROR", "SERVER_ERROR", "CLIENT_ERROR":
 			if len(parts) > 1 {
-				resp.Msg = parts[1]
+				// the whole message, not only its first word
+				i := strings.Index(s, parts[0]) + len(parts[0])
+				resp.Msg = strings.TrimPrefix(s[i:len(s)-2], " ")
 			}
 			logger.Errorf("error: %v", resp)
 
